@@ -40,6 +40,7 @@ func runC11(r *engine.Run) {
 	r.Rule("ORDER-wait", "Commit defers a closure that closes the created and deleted channels and then waits for the collector goroutines (sync.WaitGroup.Wait): the bookkeeping is complete when Commit returns")
 	r.Rule("FRESH-resolved", "see C09: a resolved reference is a private, freshly decoded node (a memoised object is served under a hash it no longer has, so the live trie and the reopened one differ)")
 	r.Rule("DEP-linkback", "see C09: the subtree returned by every recursive insert/delete/commit call is linked back on every success path (a dropped hash reference leaves a hollow branch in memory while storage has the content)")
+	r.Rule("FRESH-keybuf", "see C09: a value loaded from a shared-prefix node's key field is never the base of an append (a split gives the upper node key[:p] of the array that also holds the sibling leaf's key: hashing by appending onto the key rewrites that leaf's key in memory, and the next commit saves the clobbered key)")
 	r.Rule("DOM-dirty", "see C09: every store to a hashed field of a node (value, weight, key, children) is accompanied by dirty=true on every path: commit saves only dirty nodes, so a node whose weight or value changed without the flag keeps its old stored record and the reopened trie differs from the live one")
 	r.NotDec = append(r.NotDec, "that a reopened trie is observationally identical (value-level)", "atomicity of the storage engine's batches (the atomic unit by the property's quantifier)")
 	domSave(r)
@@ -62,6 +63,7 @@ func runC11(r *engine.Run) {
 	freshCopy(r, "FRESH-copy")
 	freshHashBuf(r, "FRESH-hashbuf")
 	domMemo(r, "DOM-memo")
+	freshKeyBuf(r, "FRESH-keybuf")
 	domDirty(r)
 	agreeDecode(r, "AGREE-decode")
 	errGuard(r, "ERR-guard", "ERR-dropped", funcsOfPkg(r, pkgWMPT), 10)
